@@ -1782,10 +1782,12 @@ class Canon:
                 init = _strip(st["init"]) if ok else {}
                 inner = pat["ps"][0] if pat.get("k") == "TupleStruct" and len(pat.get("ps", [])) == 1 else None
                 if not (ok and str(pat.get("path", "")).endswith("::Some") and inner is not None and inner.get("k") == "Bind" and not inner.get("mut") and
-                        init.get("k") == "MethodCall" and init.get("name") in ("last", "last_mut", "first", "first_mut") and not init.get("args") and
-                        "[T]::" in str(init.get("fn") or "") and self._pure(init["recv"])):
+                        init.get("k") == "MethodCall" and "[T]::" in str(init.get("fn") or "") and self._pure(init["recv"]) and
+                        ((init.get("name") in ("last", "last_mut", "first", "first_mut") and not init.get("args")) or
+                         (init.get("name") in ("get", "get_mut") and len(init.get("args", [])) == 1 and str(init["args"][0].get("ty")) == "usize" and self._pure(init["args"][0])))):
                     out.append(st)
                     continue
+                by_index = init.get("name") in ("get", "get_mut")
                 X = init["recv"]
                 sp = st.get("sp") or [0, 0, 0, 0]
 
@@ -1799,7 +1801,12 @@ class Canon:
                     r = copy.deepcopy(X)
                     r.pop("adj", None)
                     return r
-                if init["name"].startswith("last"):
+                if by_index:
+                    ix = copy.deepcopy(init["args"][0])
+                    for x_ in _walk(ix):
+                        if "id" in x_:
+                            x_["id"] = self._id()
+                elif init["name"].startswith("last"):
                     ix = usz({"k": "Binary", "op": "-", "l": usz({"k": "MethodCall", "name": "len", "fn": "std::vec::Vec<T, A>::len", "impl": "std::vec::Vec<T, A>::len", "fn_local": False,
                                                                 "recv": base(), "args": []}), "r": usz({"k": "Lit", "v": "1"})})
                 else:
@@ -1809,6 +1816,10 @@ class Canon:
                        "id": self._id(), "ty": inner.get("ty"), "sp": list(sp)}
                 cond = {"k": "MethodCall", "name": "is_empty", "fn": "std::vec::Vec<T, A>::is_empty", "impl": "std::vec::Vec<T, A>::is_empty", "fn_local": False,
                         "recv": base(), "args": [], "id": self._id(), "ty": "bool", "sp": list(sp)}
+                if by_index:
+                    # `let Some(t) = X.get(i) else { D }`: D runs exactly when i >= X.len()
+                    ln_ = usz({"k": "MethodCall", "name": "len", "fn": "std::vec::Vec<T, A>::len", "impl": "std::vec::Vec<T, A>::len", "fn_local": False, "recv": base(), "args": []})
+                    cond = {"k": "Binary", "op": ">=", "l": copy.deepcopy(ix), "r": ln_, "id": self._id(), "ty": "bool", "sp": list(sp)}
                 out.append({"k": "Expr", "e": {"k": "If", "cond": cond, "then": st["els"], "id": self._id(), "ty": "()", "sp": list(sp)}, "sp": list(sp)})
                 rest = stmts[pos + 1:] + ([{"e": blk["expr"]}] if blk.get("expr") is not None else [])
                 for r_ in rest:
